@@ -3261,7 +3261,7 @@ def cartesian(
 
         if isinstance(new_arrays, dict):
             if nested is True:
-                nested = list(new_arrays.keys())  # last key is ignored below
+                nested = list(new_arrays.keys())[:-1]  # all but the last key
             if any(not (isinstance(n, str) and n in new_arrays) for x in nested):
                 raise ValueError(
                     "the 'nested' parameter of cartesian must be dict keys "
